@@ -7,7 +7,7 @@ from simkit.program import Cfg, gen_program
 from simkit import lifecycle as lc
 
 ID = "C07"
-RUNS = {"quick": 400_000, "thorough": 3_000_000}
+RUNS = {"quick": 300_000, "thorough": 3_000_000}
 SIM_TIME_UNIT = "scripted user operations executed"
 RULE = (
     "each run = one generated program whose stages (any stage, any cleanup) call assertThat / expectThat / "
